@@ -187,6 +187,7 @@ def all_shorthands(max_acc):
 
 
 def explore(ctx):
+    ctx.use_thorough_bounds('thorough bounds take under a second')
     kc, km = ctx.pick((3, 2), (4, 3))
     fam = family(kc, km)
     ctx.bound("determine_names", "canonical <= %d accidentals + every order <= %d accidentals (%d names)" % (kc, km, len(fam)))
